@@ -1190,10 +1190,22 @@ TREES = [
 ]
 
 
-def _mk_lf(model, tree_s, aln, rules=(), model_kw=None):
-    from cogent3 import get_model, make_tree
+def _get_sm(model, model_kw=None):
+    """named model, or "GS" = cogent3.evolve.ns_substitution_model.GeneralStationary (stationary, NOT time-reversible)"""
+    if model == "GS":
+        from cogent3 import DNA
+        from cogent3.evolve.ns_substitution_model import GeneralStationary
 
-    lf = get_model(model, **(model_kw or {})).make_likelihood_function(make_tree(tree_s))
+        return GeneralStationary(DNA.alphabet, **(model_kw or {}))
+    from cogent3 import get_model
+
+    return get_model(model, **(model_kw or {}))
+
+
+def _mk_lf(model, tree_s, aln, rules=(), model_kw=None):
+    from cogent3 import make_tree
+
+    lf = _get_sm(model, model_kw).make_likelihood_function(make_tree(tree_s))
     lf.set_alignment(aln)
     for r in rules:
         lf.set_param_rule(**r)
@@ -1330,9 +1342,7 @@ _RATE_PARAMS = {}
 
 def _rate_params(model):
     if model not in _RATE_PARAMS:
-        from cogent3 import get_model
-
-        sm = get_model(model)
+        sm = _get_sm(model)
         _RATE_PARAMS[model] = [p for p in sm.get_param_matrix_coords() if p not in ("ref_cell",)]
     return _RATE_PARAMS[model]
 
@@ -1407,6 +1417,34 @@ def _scoping_cases(rng, tree_s, taxa):
     ]
 
 
+def _gs_cases(budget):
+    """deterministic nested pairs around GeneralStationary (stationary but not reversible), ssGN and GN in both roles,
+    non-uniform motif probabilities (from the data), the alternative richer by model or by edge scoping"""
+    tree_s, taxa = TREES[1]
+    gsp = _rate_params("GS")
+    per_edge = [dict(par_name=p, is_independent=True) for p in gsp]
+    clade = [dict(par_name=p, edges=["Human", "Chimpanzee"], is_independent=False) for p in gsp]
+    specs = [
+        ("GS", [], "GS", per_edge, "gs-same", "alt-per-edge", 20),
+        ("GS", [], "GS", clade, "gs-same", "alt-clade", 20),
+        ("GS", [dict(par_name=gsp[0], edges=["Human", "Chimpanzee"], is_independent=False)], "GS", per_edge, "gs-same", "null-clade-alt-per-edge", 10),
+        ("GTR", [], "GS", [], "gs-same", "free", 20),
+        ("HKY85", [], "GS", [], "gs-same", "free", 20),
+        ("HKY85", [dict(par_name="kappa", is_constant=True, value=2.5)], "GS", [], "gs-same", "const", 20),
+        ("F81", [], "GS", [], "gs-same", "free", 20),
+        ("GS", [], "GN", [], "gs-notsame", "free", 20),
+        ("ssGN", [], "GN", [], "notsame-nonstationary", "free", 20),
+        ("ssGN", [], "GN", [dict(par_name="A>G", is_independent=True)], "notsame-nonstationary", "alt-per-edge", 10),
+    ]
+    cases = []
+    for k, (nm, nr, am, ar, cls, cfg, me) in enumerate(specs):
+        starts = [300] if budget < 8 else [300, 900, 1500]
+        for st in starts:
+            cases.append(dict(check="init", null=nm, alt=am, null_rules=nr, alt_rules=ar, tree=tree_s, taxa=taxa, start=st, length=300,
+                              max_evaluations=me, cls=cls, null_cfg=cfg))
+    return cases
+
+
 def _spec_init(ctx, out, rng, budget):
     pairs = list(NESTED_NUC)
     rng.shuffle(pairs)
@@ -1458,6 +1496,7 @@ def _spec_init(ctx, out, rng, budget):
     for cc in codon_cases:
         cases.append(dict(dict(check="init", tree=TREES[0][0], taxa=TREES[0][1], start=rng.randrange(0, 1500, 3),
                                length=150, max_evaluations=rng.choice([5, 25]), codon=True, cls="codon"), **cc))
+    cases += _gs_cases(budget)
     for case in cases:
         out["evaluations"] += 1
         prob, info = _run_init_case(case)
@@ -1533,6 +1572,13 @@ def _run_opt_case(case):
     import random
 
     starts = _random_start(lf, random.Random(case["start_seed"]), case["model"]) if case.get("start_seed") is not None else None
+    ob = case.get("on_bound")
+    if ob and ob.get("via_nested"):
+        # the parameter arrives ON its upper bound through initialise_from_nested from a null holding it constant there
+        null = _mk_lf(case["model"], case["tree"], aln, [dict(par_name=ob["par"], is_constant=True, value=ob["at"])])
+        with warnings.catch_warnings():
+            warnings.simplefilter("ignore")
+            lf.initialise_from_nested(null)
     if case.get("pressed"):
         _press_bounds(lf, random.Random(case["pressed"]))
     before = float(lf.lnL)
@@ -1550,6 +1596,14 @@ def _run_opt_case(case):
         return dict(kind="raise", exc=type(e).__name__, msg=str(e)[:120]), dict(before=before)
     after = float(lf.lnL)
     info = dict(before=before, after=after, exc=exc)
+    if ob:
+        # a parameter that started ON one declared bound must not be written back at the OTHER bound
+        r = [r for r in lf.get_param_rules() if r["par_name"] == ob["par"]][0]
+        v, lo, hi = float(r["init"]), r.get("lower"), r.get("upper")
+        info["on_bound_value"] = v
+        other = lo if ob["side"] == "upper" else hi
+        if other is not None and v == other and v != ob["at"]:
+            return dict(kind="flip", par=ob["par"], started_at=ob["at"], side=ob["side"], ended_at=v, lnL_before=before, lnL_after=after), info
     if not (after >= before - _tol(before)):
         return dict(kind="worse", delta=after - before), info
     if case.get("return_calculator") and calc is not None:
@@ -1562,6 +1616,32 @@ def _run_opt_case(case):
     if b is not None:
         return dict(kind="bounds", **b), info
     return None, info
+
+
+def _on_bound_cases(budget):
+    """deterministic: a log-scaled rate parameter starts ON a declared bound (exp(log(U)) may exceed U by one ulp, which
+    is the round-off branch of update_from_calculator).  The calculator only rewrites the value when the optimiser
+    has moved away and come back (measured: <= 4 evaluations leave the start value untouched, 12 / 60 Powell evaluations
+    end back on the bound), so the evaluation limits are chosen around that"""
+    tree_s, taxa = TREES[1]
+    base = dict(check="optimise", tree=tree_s, taxa=taxa, start=300, length=300, local=True, tolerance=1e-6, seed=0,
+                start_seed=None, limit_action="ignore")
+    cases = []
+    for U in (3.0, 10.0, 30.0, 100.0):
+        for me in ((4, 12, 60) if budget < 8 else (1, 2, 4, 8, 12, 20, 30, 60, 150)):
+            cases.append(dict(base, model="HKY85", rules=[dict(par_name="kappa", init=U, upper=U)], max_evaluations=me,
+                              on_bound=dict(par="kappa", side="upper", at=U)))
+        cases.append(dict(base, model="HKY85", rules=[dict(par_name="kappa", upper=U)], max_evaluations=12,
+                          on_bound=dict(par="kappa", side="upper", at=U, via_nested=True)))
+    for U in (10.0, 30.0):
+        cases.append(dict(base, model="TN93", rules=[dict(par_name="kappa_r", init=U, upper=U)], max_evaluations=15,
+                          on_bound=dict(par="kappa_r", side="upper", at=U)))
+        cases.append(dict(base, model="GTR", rules=[dict(par_name="A/G", init=U, upper=U)], max_evaluations=25,
+                          on_bound=dict(par="A/G", side="upper", at=U)))
+    for Lw in (0.3, 2.0, 7.0, 0.1):
+        cases.append(dict(base, model="HKY85", rules=[dict(par_name="kappa", init=Lw, lower=Lw, upper=200.0)], max_evaluations=12,
+                          on_bound=dict(par="kappa", side="lower", at=Lw)))
+    return cases
 
 
 def _spec_optimise(ctx, out, rng, budget):
@@ -1592,6 +1672,7 @@ def _spec_optimise(ctx, out, rng, budget):
                           max_restarts=rng.choice([None, None, 0, 2]),
                           return_calculator=True if rng.random() < 0.2 else None,
                           pressed=rng.randrange(1, 10**6) if rng.random() < 0.25 else None))
+    cases += _on_bound_cases(budget)
     if budget >= 8:
         cases.append(dict(check="optimise", model="MG94HKY", tree=TREES[0][0], taxa=TREES[0][1], start=300, length=150, codon=True,
                           local=True, max_evaluations=40, rules=[], tolerance=1e-6, seed=1, start_seed=None))
@@ -1603,6 +1684,13 @@ def _spec_optimise(ctx, out, rng, budget):
         bump(out, "opt_model", case["model"])
         bump(out, "opt_max_evaluations", str(case["max_evaluations"]))
         bump(out, "opt_limit_action", case.get("limit_action", "ignore"))
+        if case.get("on_bound"):
+            ob_ = case["on_bound"]
+            bump(out, "opt_on_bound", f"{ob_['side']}={ob_['at']}" + (" via nested" if ob_.get("via_nested") else ""))
+            if prob is None and info.get("on_bound_value") == ob_["at"]:
+                bump(out, "opt_on_bound_outcome", "still on the bound")
+            elif prob is None:
+                bump(out, "opt_on_bound_outcome", "moved inside")
         bump(out, "opt_config", ("pressed-bounds " if case.get("pressed") else "") + ("global_tolerance " if case.get("global_tolerance") else "")
              + ("max_restarts " if case.get("max_restarts") is not None else "") + ("return_calculator" if case.get("return_calculator") else "") or "plain")
         if prob is None:
@@ -1614,6 +1702,16 @@ def _spec_optimise(ctx, out, rng, budget):
                 out["nontrivial"].add(("opt", str(case)))
             if len(out["samples"]) < 6 and gain > 1 and case["max_evaluations"] in (2, 5, 10):
                 out["samples"].append(dict(case=case, lnL_before=info["before"], lnL_after=info["after"]))
+        elif prob["kind"] == "flip":
+            bump(out, "opt_outcome", "BOUND-FLIP")
+            at = case["on_bound"]["at"]
+            add_failure(out, "spec", "a parameter that started ON one declared bound was written back at the OTHER bound after optimise",
+                        case, f"{case['on_bound']['par']} stays near {at}", prob,
+                        sig=f"opt-bound-flip:{case['on_bound']['side']}-{'U<=10' if at <= 10 else 'U>10'}")
+        elif prob["kind"] == "worse" and case.get("on_bound"):
+            bump(out, "opt_outcome", "WORSE")
+            add_failure(out, "spec", "optimise returned a lower log-likelihood than it started from (parameter started on a declared bound)", case,
+                        f">= {info['before']}", info["after"], sig=f"opt-worse:on-{case['on_bound']['side']}-bound")
         elif prob["kind"] == "worse":
             bump(out, "opt_outcome", "WORSE")
             add_failure(out, "spec", "optimise returned a lower log-likelihood than it started from", case,
@@ -1907,6 +2005,114 @@ def _spec_apps(ctx, out, rng, budget):
             add_failure(out, "spec", f"app raised {prob['exc']}", case, "result", prob, sig=f"app-raise:{prob['exc']}:{case['app']}:{cfg}")
 
 
+# ---- declared bounds survive later rules and optimisation ---------------------------------------------------
+def _declared_cases(budget):
+    """(label, model, param class, [declaring rules], intervening op, [intervening rules], table of declared bounds).
+    The table is kept by the harness (keyed by (par_name, edge)), never read back from the likelihood function."""
+    tree_s, taxa = TREES[1]
+    cases = []
+
+    def add(label, model, pcls, op, declare, intervene, table, start=300):
+        cases.append(dict(check="declared", label=label, model=model, pclass=pcls, op=op, declare=declare, intervene=intervene,
+                          table=[[k[0], k[1], lo, hi] for k, (lo, hi) in table.items()], tree=tree_s, taxa=taxa, start=start,
+                          length=300, max_evaluations=400))
+
+    for up in ((0.05,) if budget < 8 else (0.05, 0.02, 0.1)):
+        # branch length of the long Galago edge (unconstrained optimum ~0.12): lower bound is exactly 0
+        add("length upper, then init rule", "F81", "length", "init-rule",
+            [dict(par_name="length", edge="Galago", init=up * 0.6, upper=up)],
+            [dict(par_name="length", edge="Galago", init=up * 0.8)], {("length", "Galago"): (0.0, up)})
+        add("length upper on two edges, then regrouped", "F81", "length", "regroup",
+            [dict(par_name="length", edge="Galago", init=up * 0.6, upper=up), dict(par_name="length", edge="Rhesus", init=up * 0.6, upper=up)],
+            [dict(par_name="length", edges=["Galago", "Rhesus"], is_independent=False)],
+            {("length", "Galago"): (0.0, up), ("length", "Rhesus"): (0.0, up)})
+        add("length upper on two edges, regrouped then made independent again", "HKY85", "length", "regroup-independent",
+            [dict(par_name="length", edge="Galago", init=up * 0.6, upper=up), dict(par_name="length", edge="Rhesus", init=up * 0.6, upper=up)],
+            [dict(par_name="length", edges=["Galago", "Rhesus"], is_independent=False), dict(par_name="length", edges=["Galago", "Rhesus"], is_independent=True)],
+            {("length", "Galago"): (0.0, up), ("length", "Rhesus"): (0.0, up)})
+        add("length upper, then the rule restated as a per-edge value on a clade", "F81", "length", "init-rule-edges",
+            [dict(par_name="length", edges=["Galago", "Rhesus"], init=up * 0.5, upper=up, is_independent=True)],
+            [dict(par_name="length", edge="Galago", init=up * 0.9), dict(par_name="length", edge="Rhesus", init=up * 0.7)],
+            {("length", "Galago"): (0.0, up), ("length", "Rhesus"): (0.0, up)})
+    # rate parameter (lower bound 1e-6): kappa optimum is far above 2
+    add("kappa upper, then init rule", "HKY85", "rate", "init-rule",
+        [dict(par_name="kappa", init=1.5, upper=2.0)], [dict(par_name="kappa", init=1.8)], {("kappa", None): (1e-6, 2.0)})
+    add("per-edge kappa upper, then init rule on one edge", "HKY85", "rate", "init-rule",
+        [dict(par_name="kappa", is_independent=True, upper=2.0, init=1.5)], [dict(par_name="kappa", edge="Galago", init=1.9)],
+        {("kappa", e): (1e-6, 2.0) for e in ("Galago", "Human", "Chimpanzee", "Rhesus", "edge.0")})
+    add("kappa upper with lower=0, then init rule", "HKY85", "rate-lower0", "init-rule",
+        [dict(par_name="kappa", init=1.5, lower=0.0, upper=2.0)], [dict(par_name="kappa", init=1.8)], {("kappa", None): (0.0, 2.0)})
+    return cases
+
+
+def _exported_bounds(lf, par, edge):
+    """(lower, upper, value) the likelihood function exports for (par, edge)"""
+    for r in lf.get_param_rules():
+        if r["par_name"] != par or r.get("is_constant"):
+            continue
+        sc = r.get("edges", r.get("edge"))
+        sc = [sc] if isinstance(sc, str) else sc
+        if edge is None or sc is None or edge in sc:
+            return r.get("lower"), r.get("upper"), float(r["init"])
+    return None
+
+
+def _run_declared_case(case):
+    aln = _alignment(case["taxa"], case["start"], case["length"])
+    lf = _mk_lf(case["model"], case["tree"], aln, case["declare"])
+    for r in case["intervene"]:
+        lf.set_param_rule(**r)
+    info = {}
+    for par, edge, lo, hi in case["table"]:
+        got = _exported_bounds(lf, par, edge)
+        if got is None or got[1] != hi or got[0] != lo:
+            return dict(kind="lost", par=par, edge=edge, declared=[lo, hi], exported=None if got is None else list(got[:2])), info
+    before = float(lf.lnL)
+    _opt(lf, True, case["max_evaluations"])
+    after = float(lf.lnL)
+    info.update(before=before, after=after)
+    active = 0
+    for par, edge, lo, hi in case["table"]:
+        got = _exported_bounds(lf, par, edge)
+        v = got[2]
+        if v > hi * (1 + 1e-9) or v < lo - 1e-12:
+            return dict(kind="outside", par=par, edge=edge, declared=[lo, hi], value=v, exported=list(got[:2])), info
+        if abs(v - hi) <= 1e-6 * hi:
+            active += 1
+    info["active"] = active
+    if not after >= before - _tol(before):
+        return dict(kind="worse", delta=after - before), info
+    return None, info
+
+
+def _spec_declared(ctx, out, rng, budget):
+    for case in _declared_cases(budget):
+        out["evaluations"] += 1
+        try:
+            prob, info = _run_declared_case(case)
+        except Exception as e:
+            prob, info = dict(kind="raise", exc=type(e).__name__, msg=str(e)[:160]), {}
+        bump(out, "declared_case", case["label"])
+        if prob is None:
+            bump(out, "declared_outcome", "kept; bound active at the optimum" if info.get("active") else "kept; optimum inside")
+            if info.get("active"):
+                out["nontrivial"].add(("declared", case["label"], str(case["table"])))
+            continue
+        bump(out, "declared_outcome", prob["kind"].upper())
+        if prob["kind"] == "lost":
+            add_failure(out, "spec", "a declared bound is no longer exported after a later rule that does not restate bounds", case,
+                        prob["declared"], prob, sig=f"declared-bound-lost:{case['pclass']}:{case['op']}")
+        elif prob["kind"] == "outside":
+            add_failure(out, "spec", "optimised value outside the bounds declared by the test", case, prob["declared"], prob,
+                        sig=f"opt-outside-declared:{case['pclass']}:{case['op']}")
+        elif prob["kind"] == "worse":
+            add_failure(out, "spec", "optimise returned a lower log-likelihood (declared-bounds case)", case, info.get("before"), info.get("after"),
+                        sig=f"opt-worse:declared-bounds:{case['pclass']}")
+        else:
+            add_failure(out, "spec", f"declared-bounds case raised {prob['exc']}", case, "no exception", prob,
+                        sig=f"declared-raise:{prob['exc']}:{case['pclass']}:{case['op']}")
+
+
 def spec_check(ctx, budget):
     out = new_outcome(
         "real alignments (windows of tests/data/primate_brca1.fasta, 3-5 taxa): nested initialisation over the named nested "
@@ -1920,6 +2126,7 @@ def spec_check(ctx, budget):
     _spec_optimise(ctx, out, rng, budget)
     _spec_hypothesis(ctx, out, rng, budget)
     _spec_apps(ctx, out, rng, budget)
+    _spec_declared(ctx, out, rng, budget)
     return out
 
 
@@ -1959,6 +2166,8 @@ def _rerun(case):
         return _run_hyp_case(case)
     if case.get("check") == "app":
         return _run_app_case(case)
+    if case.get("check") == "declared":
+        return _run_declared_case(case)
     return None, {}
 
 
